@@ -596,7 +596,7 @@ int main(int argc, char **argv)
 		probe_depth = b.max_depth;
 		vx_bfs_run(&b);
 		vx_count("states", b.states); vx_count("transitions", b.transitions); vx_count("traces", b.transitions);
-		vx_count("distinct", b.states); vx_count("scope_guard_disabled_ops", b.disabled);
+		vx_count("scope_guard_disabled_ops", b.disabled);
 		vx_and("exhaustive", !b.capped);
 		if (b.capped) vx_note("config %s stopped at the deadline after completing depth %d of %d", curcfg->name, b.depth_done, b.max_depth);
 		vx_min("min_depth_completed", (uint64_t)b.depth_done); vx_max("max_depth_completed", (uint64_t)b.depth_done);
